@@ -6,8 +6,18 @@ from core import HarnessError
 
 def setup():
     """MANIFEST.setup_cmd: build every binary the quick checks need (offline, from disk)."""
-    for fl, prof in [("asm", "debug"), ("asm", "release")]:
+    for fl, prof in [("asm", "debug"), ("asm", "release"), ("intr", "debug"), ("pure", "debug")]:
         core.cargo_build(fl, prof)
+    import cbuild
+    for v in ("asm", "int"):
+        for san in ("native", "asan"):
+            cbuild.build(v, san)
+    # warm the Miri sysroot/target so that quick checks do not pay for it
+    env = core.env_base()
+    env["RUSTFLAGS"] = "--cfg %s -Ctarget-feature=+sse4.1,+avx2" % core.GUARD
+    env["MIRIFLAGS"] = "-Zmiri-disable-isolation"
+    core.run(["cargo", "+nightly", "miri", "run", "--offline", "-q", "-p", "mon", "--target-dir", os.path.join(core.TARGET, "miri")] + core.MIRI_FEATURES["pure"] + ["--", "selftest"],
+             cwd=core.HARNESS, env=env, timeout=1800)
     print("setup ok")
     return 0
 
@@ -37,10 +47,63 @@ def c10(ctx):
     ctx.mon("c10/asm-release", "asm", "release", ["c10"])
 
 
+def kernel_sweeps(ctx, scale):
+    """The kernel sweep shared by C05 (outputs) and C07 (memory/ABI): C side by symbol in both
+    cdrv variants, Rust side through Platform in the three crate flavours."""
+    ctx.cdrv_kernels = {}
+    core.cdrv_run(ctx, "kernels/cdrv-asm", "asm", "native", "kernels", scale=scale)
+    core.cdrv_run(ctx, "kernels/cdrv-int", "int", "native", "kernels", scale=scale * 0.5)
+    ctx.mon("kernels/rust-asm", "asm", "debug", ["kern", "--scale", str(scale)])
+    ctx.mon("kernels/rust-intr", "intr", "debug", ["kern", "--scale", str(scale * 0.5)])
+    ctx.mon("kernels/rust-pure", "pure", "debug", ["kern", "--scale", str(scale * 0.5)])
+    if ctx.thorough:
+        ctx.mon("kernels/rust-asm-release", "asm", "release", ["kern", "--scale", str(scale)])
+        ctx.mon("kernels/rust-intr-release", "intr", "release", ["kern", "--scale", str(scale * 0.5)])
+        ctx.mon("kernels/rust-pure-release", "pure", "release", ["kern", "--scale", str(scale * 0.5)])
+
+
+def c05(ctx):
+    kernel_sweeps(ctx, 1.0)
+
+
+def c06(ctx):
+    core.cdrv_run(ctx, "api/cdrv-asm", "asm", "native", "api", scale=1.0)
+    core.cdrv_run(ctx, "api/cdrv-int", "int", "native", "api", scale=1.0)
+
+
+def c07(ctx):
+    t = ctx.thorough
+    # 1. native: kernel sweep + API histories, every buffer in a guard arena, asm through trampolines
+    kernel_sweeps(ctx, 2.0 if t else 0.5)
+    core.cdrv_run(ctx, "api/cdrv-asm", "asm", "native", "api", scale=4.0 if t else 0.5)
+    core.cdrv_run(ctx, "api/cdrv-int", "int", "native", "api", scale=4.0 if t else 0.5)
+    # 2. Rust API level: every update slice / fill destination flush against a guard page
+    ctx.mon("rust-api-guard/c02", "asm", "debug", ["c02", "--guard", "1", "--scale", "2" if t else "0.3"])
+    ctx.mon("rust-api-guard/c03", "asm", "debug", ["c03", "--guard", "1", "--scale", "2" if t else "0.3"])
+    ctx.mon("rust-api-guard/c02-intr", "intr", "debug", ["c02", "--guard", "1", "--scale", "1" if t else "0.15"])
+    ctx.mon("safe-api-probes", "asm", "debug", ["probes"])
+    ctx.mon("safe-api-probes-intr", "intr", "debug", ["probes"])
+    # 3. sanitizer / interpreter / memcheck builds of the same workloads, concurrently
+    def asan(variant, what, scale):
+        return lambda: core.cdrv_run(ctx, "asan-ubsan/%s-%s" % (variant, what), variant, "asan", what, scale=scale, shards=4,
+                                     env_extra={"ASAN_OPTIONS": "detect_leaks=0:abort_on_error=0:halt_on_error=1", "UBSAN_OPTIONS": "print_stacktrace=1:halt_on_error=1"})
+    def vg(what, scale):
+        return lambda: core.cdrv_run(ctx, "valgrind/asm-%s" % what, "asm", "native", what, scale=scale, shards=4, gen_extra=["--no-avx512", "1"],
+                                     wrapper=["valgrind", "-q", "--error-exitcode=0", "--track-origins=no"], trace=True, timeout=2400)
+    jobs = [asan("asm", "kernels", 1.0 if t else 0.15), asan("int", "kernels", 1.0 if t else 0.15), asan("asm", "api", 2.0 if t else 0.25), asan("int", "api", 2.0 if t else 0.25),
+            vg("kernels", 0.3 if t else 0.02), vg("api", 0.5 if t else 0.04),
+            lambda: core.miri_run(ctx, "miri/kern", ["kern", "--randomize", "1", "--scale", "0.016" if t else "0.001"], shards=16),
+            lambda: core.miri_run(ctx, "miri/hist", ["c02", "--scale", "0.2" if t else "0.012", "--miri-small", "1"], shards=16)]
+    ctx.parallel(jobs, workers=len(jobs))
+
+
 PROPS = {
     "C01": c01,
     "C02": c02,
     "C03": c03,
+    "C05": c05,
+    "C06": c06,
+    "C07": c07,
     "C09": c09,
     "C10": c10,
 }
